@@ -3,7 +3,10 @@ from .. import fam_pipeline as fp
 from .. import gen_models as gm
 from .. import oracles as orc
 
-THEOREMS = ["C05.pack4_length", "C05.unpack_pack", "C05.decode_encode8", "C05.encodeAll8", "C05.decode_encode", "C05.decode_encode_wrap", "C05.decodeAll_encodeAll", "C05.encodeAllLE_length", "C05.f16Val_f16Bits", "C17.dq_q_ideal", "C17.cover_ideal", "C17.dq_q_rounded", "C17.q_in_range", "C17.q_in_range_64", "C17.saturates_high_64"]
+THEOREMS = ["C05.pack4_length", "C05.unpack_pack", "C05.decode_encode8", "C05.encodeAll8", "C05.decode_encode", "C05.decode_encode_wrap", "C05.decodeAll_encodeAll", "C05.encodeAllLE_length", "C05.f16Val_f16Bits", "C17.dq_q_ideal", "C17.cover_ideal", "C17.dq_q_rounded", "C17.q_in_range", "C17.q_in_range_64", "C17.saturates_high_64",
+            # C05c: END TO END on quantizePure under NF: what the stored bytes of every rewritten constant are, their length, and what they decode to
+            "C05.storedBytes_uniform", "C05.storedBytes_f16", "C05.rewritten_of_inr", "C05.stored_source", "C05.src_kinds", "C05.stored_length",
+            "C05.stored_decodes_within_step", "C05.decode_minmax", "C05.stored_decodes_all", "C05.stored_bias", "C05.stored_f16"]
 
 
 def big_constants(ctx):
@@ -48,7 +51,20 @@ def big_constants(ctx):
 
 def run(ctx):
     ctx.rule = ("every rewritten constant of every generated model x recipe (weights of fc/conv/depthwise/transpose-conv/batch-matmul/embedding, constant operands of elementwise ops and concatenations, biases; 4/8/16 bit, symmetric/asymmetric, per-tensor/per-channel, odd element counts) decoded by an independent decoder and compared with the float original; the arithmetic and the whole pipeline are compared bit-exactly with the Lean model; distinct = distinct (model, recipe) pairs")
-    common.proof_side(ctx, THEOREMS, modules=["QProps.C05", "QProps.C05b", "QProps.C17", "QProps.C17b", "QProps.C17c"])
+    ctx.explanation = ("END TO END on the model (QProps/C05c), for every model in normal form, recipe state and statistics on which quantizePure "
+                       "succeeds: every tensor of the output whose buffer was rewritten stems from an original constant d through one of four "
+                       "sources (own parameters = reference formula on d's true min/max; parameters lent by another tensor; bias; float16 cast) "
+                       "(stored_source, src_kinds); its stored bytes -- the driver's 'store' / 'f16' composition, int4 two per byte low nibble "
+                       "first -- have the length implied by dtype and element count (stored_length), decode to exactly the codes, and the codes "
+                       "dequantize with the tensor's own parameters to within scale*(1/2 + 2^(bits+4)*2^-24) of d, element by element, symmetric "
+                       "and asymmetric alike, clipped elements included, for 2..16 bits and |d| <= 2^99 (stored_decodes_all via the new scalar "
+                       "law decode_minmax); biases are round(bias/scale) inside the symmetric range and keep their sign on saturation "
+                       "(stored_bias, 32 and 64 bit); float16 constants are the round-to-nearest binary16 of d (stored_f16). The length clause "
+                       "for parameters LENT by another tensor needs a shape condition (Fits) that calibrate() always delivers; hand-made "
+                       "statistics of another shape break it (NeedsFits.length_needs_fits, a closed witness; not a flow of the library). "
+                       "The flatbuffer writer that embeds the bytes is external; the independent decoder runs on every rewritten constant of "
+                       "every generated case.")
+    common.proof_side(ctx, THEOREMS, modules=["QProps.C05", "QProps.C05b", "QProps.C17", "QProps.C17b", "QProps.C17c", "QProps.C05c"])
     drv = common.Driver()
 
     def per_case(case, res):
